@@ -11,6 +11,7 @@ recorded effects.
 import re
 from fractions import Fraction
 
+import os
 from . import ir
 from .ir import N
 from .terms import *   # noqa
@@ -38,6 +39,47 @@ def int_width(t):
              'long long': 64, 'unsigned long long': 64, 'std::size_t': 64, 'size_t': 64,
              'std::ptrdiff_t': 64, 'ptrdiff_t': 64, 'std::streamsize': 64}
     return table.get(t)
+
+
+def subst_lv(lv, m):
+    """substitute inside the index steps of an lvalue (T.subst leaves lvalues alone)"""
+    if not (isinstance(lv, tuple) and len(lv) == 3 and lv[0] == 'lv'):
+        return lv
+    return ('lv', lv[1], tuple(('i', subst(st_[1], m)) if st_[0] == 'i' and isinstance(st_[1], tuple) else st_
+                              for st_ in lv[2]))
+
+
+def subst_effect(e, m):
+    """apply a term substitution to every term-valued field of an effect (recursively for the
+    bodies of nested loops)"""
+    out = {}
+    for k, v in e.items():
+        if k in ('lo', 'hi', 'idx') and e.get('kind') == 'loop':
+            out[k] = subst(v, m) if isinstance(v, tuple) and k != 'idx' else v
+        elif k == 'body' and isinstance(v, list):
+            out[k] = [subst_effect(x, m) for x in v]
+        elif k == 'pc' and isinstance(v, (tuple, list)):
+            out[k] = tuple(subst(c, m) for c in v)
+        elif k == 'args' and isinstance(v, list):
+            out[k] = [subst(x, m) if isinstance(x, tuple) else x for x in v]
+        elif k == 'outs' and isinstance(v, list):
+            out[k] = [(i_, subst_lv(lv_, m)) for i_, lv_ in v]
+        elif k == 'ref_lvs' and isinstance(v, dict):
+            out[k] = {i_: subst_lv(lv_, m) for i_, lv_ in v.items()}
+        elif k in ('target', 'functor_lv') and isinstance(v, tuple):
+            out[k] = subst_lv(v, m)
+        elif k in ('node', 'argnodes', 'where', 'kind', 'name', 'func', 'functor', 'id',
+                   'targs', 'loop', 'how', 'ty', 'type', 'const', 'implicit', 'to', 'frm',
+                   'stream', 'label', 'callee'):
+            out[k] = v
+        elif isinstance(v, tuple) and v and isinstance(v[0], str):
+            try:
+                out[k] = subst(v, m)
+            except Exception:
+                out[k] = v
+        else:
+            out[k] = v
+    return out
 
 
 class State:
@@ -734,6 +776,10 @@ class SymEx:
         ls.node = s
         ls.func = self.frames[-1].func
         self.loops.append(ls)
+        s_flag = self.rewrite_flag_loop(st, s)
+        if s_flag is not None:
+            s = s_flag
+            ls.node = s
         hdr = self.loop_header(st, s)
         body = s.k[-1] if s.op != 'do' else s.k[0]
         iterator_loop = False
@@ -767,16 +813,22 @@ class SymEx:
         if lo is not None and hi is not None:
             T.RANGES[isym] = (lo, hi)
 
+        if disc is not None and s.op == 'for' and s.k[0] is not None:
+            # variables declared in the init-statement of a discovered loop (e.g. a second iterator that
+            # advances in lock-step) are loop-carried like variables declared in front of the loop
+            self.exec_block([s.k[0]], 0, st)
+
         def setup(state):
             if disc is not None:
-                if s.op == 'for' and s.k[0] is not None:
-                    self.exec_block([s.k[0]], 0, state)
                 if disc['kind'] == 'up':
                     state.refs.pop(idx_root, None)
                     state.env[idx_root] = ('iter', iterator_loop, isym) if iterator_loop else isym
                 elif disc['kind'] == 'down':
                     state.refs.pop(idx_root, None)
                     state.env[idx_root] = sub(disc['v0'], isym)
+                elif disc['kind'] == 'upc':
+                    state.refs.pop(idx_root, None)
+                    state.env[idx_root] = add(disc['v0'], mul(disc['step'], isym))
                 return
             if idx_root is None:
                 return
@@ -797,16 +849,63 @@ class SymEx:
         try:
             r = self.exec_loop2(st, s, ls, hdr if disc is None else ('disc', disc), body, idx_root, lo, hi,
                                 elem, isym, setup)
-            if disc is not None and disc['kind'] in ('up', 'down') and \
+            if disc is not None and disc['kind'] in ('up', 'down', 'upc') and \
                     (idx_root in st.env or idx_root in st.refs):
                 if disc['kind'] == 'up':
                     fin = ('iter', iterator_loop, hi) if iterator_loop else hi
+                elif disc['kind'] == 'upc':
+                    fin = add(disc['v0'], mul(disc['step'], hi))
                 else:
                     fin = sub(ZERO, ONE) if disc.get('cond_writes') else ZERO
                 self.write_nolog(st, ('lv', idx_root, ()), fin)
             return r
         finally:
             self.loop_idx.pop()
+
+    def rewrite_flag_loop(self, st, s):
+        """`for (init; flag && C; inc) { ...; flag = E; }` with a boolean local `flag` that is true on
+        entry, assigned only by the last statement of the body and not read elsewhere in the body is
+        the loop `for (init; C; inc) { ...; flag = E; if (!flag) break; }` (the spelling with `break`
+        that the loop rules know).  Returns the rewritten node or None."""
+        if s.op not in ('for', 'while'):
+            return None
+        cnode = s.k[1] if s.op == 'for' else s.k[0]
+        body = s.k[-1]
+        if cnode is None or cnode.op != 'bin' or cnode.a.get('o') != '&&' or body is None or body.op != 'block' \
+                or not body.k:
+            return None
+        fl = other = None
+        for a, b in ((cnode.k[0], cnode.k[1]), (cnode.k[1], cnode.k[0])):
+            if a.op == 'var' and (a.ty or '').replace('const ', '') == 'bool':
+                fl, other = a, b
+                break
+        if fl is None:
+            return None
+        fid = fl.a['id']
+        if st.env.get(fid) != TRUE or fid in st.refs:
+            return None
+        last = body.k[-1]
+        asg = last.k[0] if last is not None and last.op == 'expr' and last.k else last
+        if asg is None or asg.op != 'assign' or asg.a.get('o') != '=' or asg.k[0].op != 'var' or \
+                asg.k[0].a.get('id') != fid:
+            return None
+        # no other use of the flag in the body or in the other half of the condition
+        uses = 0
+        for part in list(body.k[:-1]) + [asg.k[1], other] + ([s.k[2]] if s.op == 'for' and s.k[2] is not None else []):
+            if part is None:
+                continue
+            for n in part.walk():
+                if n.op == 'var' and n.a.get('id') == fid:
+                    uses += 1
+        if uses:
+            return None
+        loc = s.loc
+        notflag = N('un', [N('var', ty='bool', loc=loc, id=fid, name=fl.a.get('name'))], loc=loc, o='!', ty='bool')
+        brk = N('if', [notflag, N('block', [N('break', loc=loc)], loc=loc)], loc=loc)
+        nbody = N('block', list(body.k) + [brk], loc=body.loc, cid=body.cid)
+        if s.op == 'for':
+            return N('for', [s.k[0], other, s.k[2], nbody], loc=s.loc, cid=s.cid, **s.a)
+        return N('while', [other, nbody], loc=s.loc, cid=s.cid, **s.a)
 
     def discover_induction(self, st, s):
         """`while` loops and `for` loops without a plain counting header: find the counter by a trial
@@ -854,6 +953,7 @@ class SymEx:
             if t is None:
                 return None
             entry, c0, aftercond, after, wl = t
+            if os.environ.get('HEPSA_DBG'): print('DI wl', wl, 'inc', ir.show(inc) if inc is not None else None)
             K = sym('__k%d' % len(self.loops))
             for root, fpath in sorted(wl, key=str):
                 if fpath != ():
@@ -872,7 +972,13 @@ class SymEx:
                     kind = 'up'
                 elif v1 == sub(v0, ONE):
                     kind = 'down'
+                else:
+                    d_ = T.diff(v1, v0)
+                    if is_num(d_) and d_[1].denominator == 1 and d_[1] >= 2:
+                        kind = 'upc'
+                        step = d_
                 if kind is None:
+                    if os.environ.get('HEPSA_DBG'): print('DI no kind', root, T.pretty(v0)[:80], T.pretty(v1)[:80])
                     continue
 
                 def prep(st0, root=root, it=it):
@@ -883,10 +989,11 @@ class SymEx:
                     continue
                 e2, c, ac2, a2, _ = t2
                 n2 = value(a2, root)
-                exp = add(K, ONE) if kind == 'up' else sub(K, ONE)
+                exp = add(K, ONE) if kind == 'up' else sub(K, ONE) if kind == 'down' else add(K, step)
                 if it is not None:
                     exp = ('iter', it, exp)
                 if n2 != exp:
+                    if os.environ.get('HEPSA_DBG'): print('DI n2!=exp', T.pretty(n2)[:80], T.pretty(exp)[:80])
                     continue
                 # the bound must not change during an iteration
                 a3 = a2.copy()
@@ -895,12 +1002,32 @@ class SymEx:
                 c_again = self.cond(a3, cnode)
                 self.writelog = save
                 if c_again != c:
+                    if os.environ.get('HEPSA_DBG'): print('DI cond changes', T.pretty(c)[:120], T.pretty(c_again)[:120])
                     continue
                 from .rules.common import norm_cond
                 cn = norm_cond(c)
                 if not (isinstance(cn, tuple) and len(cn) == 3 and cn[0] in ('!=', '<')):
                     continue
                 opn, L, R = cn
+                if kind == 'upc':
+                    # counter advancing by a constant c >= 2: x != H (or x < H) with H - x0 = c * n
+                    if L == K and not occurs(R, K):
+                        H = R
+                    elif R == K and not occurs(L, K) and opn == '!=':
+                        H = L
+                    else:
+                        continue
+                    D = T.diff(H, v0)
+                    n_ = None
+                    if is_num(D) and (D[1] / step[1]).denominator == 1:
+                        n_ = ('num', D[1] / step[1])
+                    elif isinstance(D, tuple) and D and D[0] == '*' and D[1] == step:
+                        n_ = D[2]
+                    elif isinstance(D, tuple) and D and D[0] == '*' and D[2] == step:
+                        n_ = D[1]
+                    if n_ is None:
+                        continue
+                    return {'root': root, 'kind': 'upc', 'lo': ZERO, 'hi': n_, 'iter': None, 'v0': v0, 'step': step}
                 if kind == 'up':
                     if L == K and not occurs(R, K) and opn in ('!=', '<'):
                         H = R
@@ -1054,6 +1181,39 @@ class SymEx:
             merged = self.merge([c.state for c in live], ())
         else:
             merged = s2
+        # lock-step counters: a carried integer (or iterator position) that advances by a constant on
+        # every path is a function of the loop index; resolve it before the idioms are matched, so
+        # that `v[k]` / `*it` with a second counter k / it is an access at the loop index
+        affine = {}
+        if ls.regular and lo is not None and isym is not None:
+            for (root, fpath), (label, pre) in pres.items():
+                lv = ('lv', root, fpath)
+                try:
+                    nx_ = self.read(merged, lv)
+                    x0_ = self.read(st, lv)
+                except Exception:
+                    continue
+                itw = iter_wrapped.get((root, fpath))
+                if itw is not None:
+                    if not (isinstance(nx_, tuple) and nx_ and nx_[0] == 'iter' and nx_[1] == itw):
+                        continue
+                    nx_, x0_ = nx_[2], x0_[2]
+                if not isinstance(nx_, tuple) or not occurs(nx_, pre):
+                    continue
+                d_ = T.diff(nx_, pre)
+                if is_num(d_) and d_[1].denominator == 1 and d_[1] != 0:
+                    affine[pre] = add(x0_, mul(d_, sub(isym, lo)))
+        if affine:
+            aff_roots = set(root for (root, fpath), (label, pre) in pres.items() if pre in affine)
+            for key_ in list(merged.env.keys()):
+                if key_ in aff_roots:
+                    continue      # the counter itself stays a reduction over its placeholder
+                v_ = merged.env[key_]
+                if isinstance(v_, tuple):
+                    merged.env[key_] = subst(v_, affine)
+            ls.effects = [subst_effect(e_, affine) for e_ in ls.effects]
+            ls.exits = [(k_, tuple(subst(c_, affine) for c_ in pc_), subst(v_, affine) if isinstance(v_, tuple) else v_)
+                        for k_, pc_, v_ in ls.exits]
         # classify every carried location
         all_pres = set(p for _, p in pres.values())
         for (root, fpath), (label, pre) in pres.items():
@@ -1955,6 +2115,8 @@ class SymEx:
             return ('manip', name)
         if name == 'eof':
             return ('const', 'eof')
+        if name == 'eq_int_type' and len(args) == 2:
+            return T.cmp('==', self.eval(st, args[0]), self.eval(st, args[1]))
         vals = [self.eval(st, a) for a in args]
         # unknown external function: havoc mutable reference arguments
         ptypes = split_params(e.a.get('ftype'))
